@@ -8,21 +8,7 @@ def env : List (Bytes × Bytes) :=
   [(Codec_sb "Foo", Codec_sb "(i)<Foo,a>"), (Codec_sb "Map<K>", Codec_sb "(s)<Map<K>,b>"), (Codec_sb "anything", Codec_sb "(b)<anything,c>")]
 where Codec_sb (s : String) : Bytes := s.toUTF8.toList
 
-mutual
-partial def sigEnv : IT → Option Bytes
-  | .basic k => some (sigLetter k)
-  | .vec t => (sigEnv t).map (fun s => [91] ++ s ++ [93])
-  | .map k v => match sigEnv k, sigEnv v with
-    | some a, some c => some ([123] ++ a ++ c ++ [125])
-    | _, _ => none
-  | .tuple ts => (sigEnvs ts).map (fun s => [40] ++ s ++ [41])
-  | .ref n => (env.find? (·.1 == n)).map (·.2)
-partial def sigEnvs : List IT → Option Bytes
-  | [] => some []
-  | t :: r => match sigEnv t, sigEnvs r with
-    | some a, some c => some (a ++ c)
-    | _, _ => none
-end
+def scope (n : Bytes) : Option Bytes := (env.find? (·.1 == n)).map (·.2)
 
 def run (args : List String) : String :=
   match args with
@@ -30,14 +16,14 @@ def run (args : List String) : String :=
     match parseHex h with
     | none => "bad-op"
     | some text =>
-      match parseT (2 * text.length + 4) text with
+      match parseType text with
       | none => "err"
       | some (t, rest) =>
         -- the text stands in a parameter list, which is a `Many` with separator: one trailing comma is swallowed
         let rest1 := skipWS rest
         let rest2 := match rest1 with | 44 :: r => skipWS r | r => r
         if !rest2.isEmpty then "err" else
-        match sigEnv t with
+        match sigIn scope t with
         | some s => "ok (" ++ String.fromUTF8! (ByteArray.mk s.toArray) ++ ")"
         | none => "unresolved"
   | "idl.rt" :: metas =>
